@@ -67,6 +67,14 @@ def build(tier, seed):
             qs.append(rc.rq("read_v%d_c%d" % (ver, comp), "h_drain",
                             dict(kls=[1, 2, 2, 1], vls=[0, 1, 1, 0], blk=[2, 2], sepl=[2, 1], ver=ver, comp=comp, pfx=(5 if comp else 0)),
                             kind=0, verify=(comp == 0), witness=(ver == 2 and comp == 0)))
+    # long keys/values through the real open path (trailer, index, both format versions)
+    lk = [b"a", b"a" + b"b" * 129, b"c" * 131]
+    for ver in (1, 2):
+        qs.append(rc.rq("read_long_v%d" % ver, "h_drain",
+                        dict(kls=[1, 130, 131], vls=[128, 0, 2], blk=[2, 1], rsts=[1, 0, 1], shs=[0, 1, 0], sepl=[130, 131],
+                             ckeys=[list(k) for k in lk], cseps=[list(lk[1]), list(lk[2])], ver=ver), kind=0, verify=1, witness=(ver == 2)))
+    qs.append(rc.rq("read_long_single_val128", "h_drain", dict(kls=[2], vls=[128], blk=[1], sepl=[2], ckeys=[list(b"kk")], cseps=[list(b"kk")], ver=2), kind=0, verify=1, witness=False))
+    qs.append(rc.rq("read_long_single_key128", "h_drain", dict(kls=[128], vls=[1], blk=[1], sepl=[128], ckeys=[list(b"k" * 128)], cseps=[list(b"k" * 128)], ver=2), kind=0, verify=1, witness=False))
     # ---- mtbl_dump: -x output is exactly the matching subsequence; -s prints nothing ----
     dumps = [([1, 2], [1, 0]), ([0, 1, 2], [1, 2, 1]), ([2, 2, 2], [0, 1, 2])]
     for i, (kls, vls) in enumerate(dumps if not quick else dumps[:2]):
@@ -85,7 +93,7 @@ def build(tier, seed):
         "functions": wc.FUNCS + rc.FUNCS + ["block_iter_seek_to_last", "block_iter_prev"],
         "units": ["mtbl/writer.c", "mtbl/block_builder.c", "mtbl/block.c", "mtbl/reader.c"] + wc.UNITS,
         "bounds": "block level: <= 4 entries, keys <= 3 bytes (all bytes symbolic), restart interval 1..4, builder buffer growth from 4/8/16 bytes; plus <= 3 entries with key/value/shared-prefix lengths 127..131 and 200 (two-byte length varints; templated keys: bytes that decide order or are shared are fixed, the rest and all value bytes symbolic); file level: writer shapes as C09 (incl. compression ids 1..5, default and explicit levels, foreign prefix), reader shapes as C11; every value byte and every key byte not deciding order symbolic (block level: all key bytes symbolic)",
-        "outside": "mtbl_dump: main()'s getopt/hex_decode parsing and the non-hex (escaped string) output mode; writer and reader are not run in ONE query on the same bytes: the writer's file is judged by an independent decoder and the reader by an independent encoder of the same format description (DESIGN.md C01 split); real codecs in the loop (C15); keys/values >= 128 bytes at file level on the reader side (block level and writer side have 127..131-byte shapes); thread pool (C13)",
+        "outside": "mtbl_dump: main()'s getopt/hex_decode parsing and the non-hex (escaped string) output mode; writer and reader are not run in ONE query on the same bytes: the writer's file is judged by an independent decoder and the reader by an independent encoder of the same format description (DESIGN.md C01 split); real codecs in the loop (C15); keys/values >= 128 bytes beyond the listed 127..131/200-byte shapes (block level, writer side, one reader-side file per format version); thread pool (C13)",
         "stubs": wc.STUBS + rc.STUBS,
         "assumptions": ["decoder (c_writer.c) and encoder (ref_encode.h) describe the same format"],
         "exhaustive": False,
